@@ -77,6 +77,29 @@ func (env *psEnv) runPS(c *rt.C, prog []ref.Tok, fpPrefix string, withSystem boo
 			panic(fmt.Sprintf("unexpected model error %v", merr))
 		}
 	}
+	if lerr == nil {
+		// invariant hook: once the program has ended, no execution nesting and
+		// no open procedure body may be left behind (observed on one further
+		// operation, before its budget comparison)
+		var seen *postscript.VerifStep
+		postscript.VerifStepHook = func(_ *postscript.Interpreter, s postscript.VerifStep) {
+			if seen == nil {
+				cp := s
+				seen = &cp
+			}
+			rt.Progress.Add(1)
+		}
+		perr := lib.ExecuteString(" 0 pop ")
+		postscript.VerifStepHook = nil
+		c.Count("hook: residual-state probes")
+		if perr != nil && !ref.Stopped(merr) {
+			c.Violation(fmt.Sprintf("%s|probe-error|%s", fpPrefix, errName(perr)),
+				fmt.Sprintf("after the program ended without error, executing `0 pop` on the same interpreter failed with %q\nprogram: %s", perr.Error(), text), "")
+		} else if seen != nil && (seen.ExecDepth != 0 || seen.OpenProcs != 0 || seen.ErrLevel != 0) {
+			c.Violation(fmt.Sprintf("%s|residual-nesting", fpPrefix),
+				fmt.Sprintf("after the program ended, the interpreter still holds execution nesting %d, %d open procedure bodies, error level %d\nprogram: %s", seen.ExecDepth, seen.OpenProcs, seen.ErrLevel, text), "")
+		}
+	}
 	if lerr != nil {
 		c.Violation(fmt.Sprintf("%s|unexpected-error|%s", fpPrefix, errName(lerr)),
 			fmt.Sprintf("the reference executes the program without error; the library failed with %q\nprogram: %s\nreference stack: %s", lerr.Error(), text, modelStackShow(model)), "")
